@@ -133,7 +133,18 @@ pub struct Case {
     pub body_err: Option<u16>,
     /// response content-type: false `application/grpc-web+proto`, true `application/grpc-web`
     pub plain_ct: bool,
+    /// 0: as `plain_ct` says; otherwise another legitimate spelling of a grpc-web content-type (RESP_CTS)
+    #[serde(default)]
+    pub ct: u8,
+    /// every DATA chunk of the inner body is handed over as a two-segment `Buf` (bytes::buf::Chain), split after
+    /// len * seg / 256 bytes (0: the first segment is empty)
+    #[serde(default)]
+    pub seg: u8,
 }
+
+/// other spellings of a grpc-web response content-type: open format suffix, media-type parameters,
+/// case-insensitive type names
+const RESP_CTS: &[&str] = &["application/grpc-web+json", "application/grpc-web+proto; charset=utf-8", "Application/GRPC-Web+Proto", "application/grpc-web+thrift", "application/grpc-web;q=1"];
 
 impl Case {
     pub fn simple(msgs: Vec<(u8, Blob)>, trailers: Option<Vec<Tr>>) -> Case {
@@ -151,6 +162,8 @@ impl Case {
             pend: vec![],
             body_err: None,
             plain_ct: false,
+            ct: 0,
+            seg: 0,
         }
     }
 }
@@ -562,16 +575,46 @@ type StdErr = Box<dyn std::error::Error + Send + Sync>;
 #[derive(Clone)]
 struct Inner {
     log: Arc<Mutex<Vec<Recorded>>>,
-    resp: Arc<Mutex<Option<Response<ScriptBody>>>>,
+    resp: Arc<Mutex<Option<Response<SegBody>>>>,
+}
+
+/// The scripted body with every DATA chunk presented as a non-contiguous `Buf` of two segments: a transport is
+/// free to hand over any `Buf`, not only `Bytes`.
+struct SegBody {
+    inner: ScriptBody,
+    seg: u8,
+}
+impl Body for SegBody {
+    type Data = bytes::buf::Chain<Bytes, Bytes>;
+    type Error = Status;
+    fn poll_frame(mut self: Pin<&mut Self>, cx: &mut Context<'_>) -> Poll<Option<Result<http_body::Frame<Self::Data>, Status>>> {
+        let seg = self.seg as usize;
+        Pin::new(&mut self.inner).poll_frame(cx).map(|o| {
+            o.map(|r| {
+                r.map(|f| {
+                    f.map_data(|mut d: Bytes| {
+                        let tail = d.split_off(d.len() * seg / 256);
+                        bytes::Buf::chain(d, tail)
+                    })
+                })
+            })
+        })
+    }
+    fn is_end_stream(&self) -> bool {
+        self.inner.is_end_stream()
+    }
+    fn size_hint(&self) -> http_body::SizeHint {
+        self.inner.size_hint()
+    }
 }
 impl<B> Service<Request<B>> for Inner
 where
     B: Body + 'static,
     B::Error: Into<StdErr>,
 {
-    type Response = Response<ScriptBody>;
+    type Response = Response<SegBody>;
     type Error = Status;
-    type Future = Pin<Box<dyn Future<Output = Result<Response<ScriptBody>, Status>>>>;
+    type Future = Pin<Box<dyn Future<Output = Result<Response<SegBody>, Status>>>>;
     fn poll_ready(&mut self, _: &mut Context<'_>) -> Poll<Result<(), Status>> {
         Poll::Ready(Ok(()))
     }
@@ -648,11 +691,12 @@ fn script(c: &Case, chunks_all: &[Vec<u8>]) -> Script {
 fn inner_for(c: &Case, sc: &Script) -> (Inner, BodyProbe) {
     let body = ScriptBody::new(sc.steps.clone());
     let probe = body.probe.clone();
-    let mut resp = Response::new(body);
-    resp.headers_mut().insert(
-        "content-type",
-        HeaderValue::from_static(if c.plain_ct { "application/grpc-web" } else { "application/grpc-web+proto" }),
-    );
+    let mut resp = Response::new(SegBody { inner: body, seg: c.seg });
+    let ct = match c.ct {
+        0 => if c.plain_ct { "application/grpc-web" } else { "application/grpc-web+proto" },
+        k => RESP_CTS[(k as usize - 1) % RESP_CTS.len()],
+    };
+    resp.headers_mut().insert("content-type", HeaderValue::from_static(ct));
     (Inner { log: Default::default(), resp: Arc::new(Mutex::new(Some(resp))) }, probe)
 }
 
@@ -1073,8 +1117,10 @@ fn judge_body(f: &Facts, obs: &BodyObs) -> Result<(), Failure> {
             }
         }
     }
+    // Each poll of the outer body may look at the inner one once more (a consumer that keeps polling after a
+    // trailers frame, as tonic's Streaming does, makes that many); what must not happen is a loop inside one poll.
     ensure!(
-        obs.polls_after_end <= 8,
+        obs.polls_after_end <= 8 + obs.evs.len(),
         format!("C17/inner-polled-after-end/{cname}"),
         "inner body polled {} times after it had ended: {}",
         obs.polls_after_end,
@@ -1383,6 +1429,8 @@ pub fn run(c: &Case, o: &mut Outcome) -> Result<(), Failure> {
     });
     o.label_if(truncated, "truncated");
     o.label_if(c.raw.is_some(), "raw_bytes");
+    o.label_if(c.ct != 0, "response_content_type_other_spelling");
+    o.label_if(c.seg != 0 && sc.chunks.iter().any(|ch| ch.len() >= 2 && ch.len() * c.seg as usize / 256 > 0), "data_in_two_buf_segments");
     o.label_if(!c.muts.is_empty(), "mutated");
     o.label_if(sc.err_step.is_some(), "inner_body_error");
     o.label_if(cut_in_header, "cut_in_frame_header");
@@ -1587,8 +1635,10 @@ fn complete() -> BoxedStrategy<Case> {
         gen::pend_pattern(4),
         proptest::option::weighted(0.04, any::<u16>()),
         any::<bool>(),
+        prop_oneof![3 => Just(0u8), 1 => 1u8..=5],
+        prop_oneof![2 => Just(0u8), 3 => any::<u8>()],
     )
-        .prop_map(|(mode, mut msgs, trailers, space, (base, cuts), empties, pend, body_err, plain_ct)| {
+        .prop_map(|(mode, mut msgs, trailers, space, (base, cuts), empties, pend, body_err, plain_ct, ct, seg)| {
             if mode != Mode::Body {
                 for m in msgs.iter_mut() {
                     m.0 = 0;
@@ -1597,7 +1647,7 @@ fn complete() -> BoxedStrategy<Case> {
             if mode == Mode::Unary {
                 msgs.truncate(2);
             }
-            Case { mode, msgs, trailers, space, muts: vec![], raw: None, trunc: None, base, cuts, empties, pend, body_err, plain_ct }
+            Case { mode, msgs, trailers, space, muts: vec![], raw: None, trunc: None, base, cuts, empties, pend, body_err, plain_ct, ct, seg }
         })
         .boxed()
 }
@@ -1777,6 +1827,7 @@ pub fn from_bytes(data: &[u8]) -> Option<Case> {
         _ => Mode::Unary,
     };
     c.plain_ct = flags & 4 != 0;
+    c.seg = if flags & 0x80 != 0 { 0x55 } else { 0 };
     c.base = if flags & 0x60 == 0x60 { Base::Bytes } else if flags & 0x60 == 0x40 { Base::One } else { Base::Sizes(sizes) };
     c.pend = pend;
     c.body_err = body_err;
@@ -1795,7 +1846,7 @@ impl Prop for C17 {
         run(c, o)
     }
     fn rule() -> &'static str {
-        "proptest + enumeration: tonic_web::GrpcWebClientService over a scripted inner tower service whose response body is built by the harness' own grpc-web encoder: 0-5 message frames (flag 0, 10% flag 1; payload 0, 1-16, <=300, 8-9 KiB) + one trailers frame (flag 0x80) whose block lists grpc-status 0..16 (or none), percent-encoded Unicode grpc-message, 0-5 entries from a small name pool (so names repeat; mixed-case variants; -bin values as padded/unpadded base64; values with ':' / inner spaces / empty / obs-text), with or without one space after the colon, status first or last; or no trailers frame. Families: 45% complete bodies, 30% truncated at a byte offset (uniform / near frame starts / near the end), 20% mutated (flag byte, declared length +-delta / absolute, trailers frame not last, bytes appended after the trailers, trailer line without colon / invalid name byte / invalid value byte / no final CRLF / empty line, xor of a byte), 5% raw bytes. Chunking (stratified): one chunk; one chunk + cut inside the trailers header / payload; per frame; per frame + cut inside a frame header / the trailers header / the trailers payload; per frame with the trailers glued to the last message; messages | trailers; byte at a time; random sizes (0,1,2-5,<=100,<=9000) + targeted cuts; empty chunks inserted; Pending pattern; 4% inner body error before some chunk. Modes: body polled directly (60%), the same exchange through a generated client as a server-streaming (30%) or unary (10%) call. Oracle (reference parse of the delivered bytes, written here): totality (no panic, poll budget, scripted body polled <= 8 times after its end, trip-wire at 1000 = busy loop), DATA so far always a prefix of the message bytes and never more than received, no None before the inner body ended unless a complete trailers frame arrived, None sticky; well-formed body: DATA == message frames' bytes exactly, then exactly one trailers frame whose map equals the expected ordered multimap (names lower-cased, full values, all repeats, nothing extra), then None, no Err; cut inside a frame header / message payload / trailers payload: an Err before any None and no trailers surfaced; bad flag bits: Err or the bytes handed on; trailer line without colon / invalid name / invalid value byte: Err; inner body error: Err. Caller's view: messages equal the payloads in order, then None + trailing metadata (status 0) or Err(code, percent-decoded message); a cut-off body never yields a successful call. Request side: the inner service sees exactly one content-type application/grpc-web[+proto], same method/URI/metadata and unchanged body bytes. Non-trivial: >=1 message and a chunk boundary strictly inside a frame header or inside the trailers frame, or a truncation; distinct = distinct serialised case."
+        "proptest + enumeration: tonic_web::GrpcWebClientService over a scripted inner tower service whose response body is built by the harness' own grpc-web encoder: 0-5 message frames (flag 0, 10% flag 1; payload 0, 1-16, <=300, 8-9 KiB) + one trailers frame (flag 0x80) whose block lists grpc-status 0..16 (or none), percent-encoded Unicode grpc-message, 0-5 entries from a small name pool (so names repeat; mixed-case variants; -bin values as padded/unpadded base64; values with ':' / inner spaces / empty / obs-text), with or without one space after the colon, status first or last; or no trailers frame. Families: 45% complete bodies, 30% truncated at a byte offset (uniform / near frame starts / near the end), 20% mutated (flag byte, declared length +-delta / absolute, trailers frame not last, bytes appended after the trailers, trailer line without colon / invalid name byte / invalid value byte / no final CRLF / empty line, xor of a byte), 5% raw bytes. Chunking (stratified): one chunk; one chunk + cut inside the trailers header / payload; per frame; per frame + cut inside a frame header / the trailers header / the trailers payload; per frame with the trailers glued to the last message; messages | trailers; byte at a time; random sizes (0,1,2-5,<=100,<=9000) + targeted cuts; empty chunks inserted; Pending pattern; 4% inner body error before some chunk. Every DATA chunk is handed over as a two-segment Buf (bytes::buf::Chain) split at a generated position (40%: first segment empty); the response content-type is application/grpc-web[+proto] or (25%) another spelling (+json, +thrift, parameters, mixed case). Modes: body polled directly (60%), the same exchange through a generated client as a server-streaming (30%) or unary (10%) call. Oracle (reference parse of the delivered bytes, written here): totality (no panic, poll budget, scripted body polled <= 8 times after its end, trip-wire at 1000 = busy loop), DATA so far always a prefix of the message bytes and never more than received, no None before the inner body ended unless a complete trailers frame arrived, None sticky; well-formed body: DATA == message frames' bytes exactly, then exactly one trailers frame whose map equals the expected ordered multimap (names lower-cased, full values, all repeats, nothing extra), then None, no Err; cut inside a frame header / message payload / trailers payload: an Err before any None and no trailers surfaced; bad flag bits: Err or the bytes handed on; trailer line without colon / invalid name / invalid value byte: Err; inner body error: Err. Caller's view: messages equal the payloads in order, then None + trailing metadata (status 0) or Err(code, percent-decoded message); a cut-off body never yields a successful call. Request side: the inner service sees exactly one content-type application/grpc-web[+proto], same method/URI/metadata and unchanged body bytes. Non-trivial: >=1 message and a chunk boundary strictly inside a frame header or inside the trailers frame, or a truncation; distinct = distinct serialised case."
     }
     fn assumptions() -> Vec<String> {
         vec![
